@@ -6,7 +6,9 @@
 //!        auth: 1 = a registry authenticator is configured (the request carries no credentials)
 //!        cfg[9] (optional): 0 = the door after the TLS handshake | 1 = the real listener over TLS | 3 = the real listener over QUIC + HTTP/3
 //!        (the hosts are then localhost / ping.localhost / speed.localhost / rp.localhost and the SNI selects the channel)
+//!        cfg[10] (optional) = 1: idle probe (see below)
 //! out: [status] [body_len, body_all_zero] origin_request_head [origin_accepts, relayed_ok] response_headers(flat, sorted)
+//!      [idle session closed by the endpoint: 0 | 1 | 2 = not probed]
 use crate::util::*;
 use std::sync::atomic::{AtomicUsize, Ordering};
 use std::sync::{Arc, Mutex};
@@ -153,6 +155,11 @@ pub fn session(toks: Vec<Tok>) -> Vec<Tok> {
         let mut body_len = 0usize;
         let mut all_zero = true;
         let mut relayed_ok = 0u128;
+        // cfg[10] = 1: after the exchange the client stays connected and silent; is the session closed by its timer
+        // (within 3 x the handler timeout + 500 ms)?
+        let idle_probe = cfg.get(10).copied().unwrap_or(0) == 1;
+        let idle_limit = Duration::from_millis(3 * cfg.get(7).copied().unwrap_or(0).max(100) as u64 + 500);
+        let mut idle_closed = 2u128;
         let mut _endpoint = None;
         let mut task = None;
         type BoxIo = Box<dyn crate::engines::c01::Io>;
@@ -237,6 +244,10 @@ pub fn session(toks: Vec<Tok>) -> Vec<Tok> {
                         .collect();
                     body_len = st.data.len();
                     all_zero = st.data.iter().all(|b| *b == 0);
+                    if idle_probe {
+                        c.drive(idle_limit, |x| x.is_shut()).await;
+                        idle_closed = c.is_shut() as u128;
+                    }
                 }
                 c.close();
             }
@@ -321,9 +332,10 @@ pub fn session(toks: Vec<Tok>) -> Vec<Tok> {
         } else {
             let hs = tokio::time::timeout(Duration::from_secs(3), h2::client::handshake(client.unwrap())).await;
             if let Ok(Ok((send, conn))) = hs {
-                let driver = tokio::spawn(async move {
+                let mut driver = tokio::spawn(async move {
                     let _ = conn.await;
                 });
+                let keep_open = send.clone();
                 let mut b = http::Request::builder().method(method_of(kind)).uri(format!("https://h{}", target).as_str());
                 for (n, v) in &headers {
                     if let Ok(v) = http::HeaderValue::from_bytes(v) {
@@ -372,6 +384,11 @@ pub fn session(toks: Vec<Tok>) -> Vec<Tok> {
                         all_zero = zero;
                     }
                 }
+                if idle_probe {
+                    // the client stays connected and silent: the session's timer has to close the connection
+                    idle_closed = tokio::time::timeout(idle_limit, &mut driver).await.is_ok() as u128;
+                }
+                drop(keep_open);
                 driver.abort();
             }
         }
@@ -393,6 +410,7 @@ pub fn session(toks: Vec<Tok>) -> Vec<Tok> {
             tok(&oh),
             vec![accepts.load(Ordering::SeqCst) as u128, relayed_ok],
             h,
+            vec![idle_closed],
         ]
     })
 }
